@@ -1,6 +1,8 @@
 package c04
 
 import (
+	"strconv"
+
 	"verif/explore"
 	"verif/ref/ssa"
 )
@@ -22,38 +24,78 @@ func str(s string) ssa.Value  { return ssa.Value{Kind: "s", S: s} }
 
 // attrValues: per attribute the baseline value first (pairwise distinct among same-typed columns,
 // so that a cell taken from the wrong column shows), then the alternatives. Floats are exactly
-// representable with three decimals (the writer's precision).
+// representable with three decimals (the writer's precision); 2.675, 1.005 and 0.07 are the classic
+// values that a multiply-and-truncate formatter gets wrong, 1000.125 needs seven significant digits.
 var attrValues = map[string][]ssa.Value{
-	"Fontname":        {str("Arial"), str("Times New Roman"), str("f1")},
-	"Fontsize":        {flt(20), flt(4.5), flt(0)},
-	"PrimaryColour":   {col(0, 0xff, 0xff, 0xff), col(0x80, 0, 0, 8), col(0, 0xb4, 0xfc, 0xfc), col(0xff, 0x01, 0x02, 0x03)},
-	"SecondaryColour": {col(0, 0, 0, 0xff), col(0x7f, 0xef, 0xef, 0xef), col(0xfe, 0, 0xff, 0)},
-	"OutlineColour":   {col(0, 0, 0, 1), col(0, 0, 0xff, 0xff), col(0x80, 0x11, 0x22, 0x33)},
-	"BackColour":      {col(0, 0x10, 0x20, 0x30), col(0x80, 0, 0, 8), col(0, 0, 0, 0)},
+	"Fontname": {str("Arial"), str("Times New Roman"), str("f1"), str("@MS Gothic"), str("\uff2d\uff33 \u30b4\u30b7\u30c3\u30af"), str(""), str("123"), str("Style")},
+	"Fontsize": {flt(20), flt(4.5), flt(0), flt(4.125), flt(1000.125), flt(2.675), flt(100)},
+	"PrimaryColour": {col(0, 0xff, 0xff, 0xff), col(0x80, 0, 0, 8), col(0, 0xb4, 0xfc, 0xfc), col(0xff, 0x01, 0x02, 0x03),
+		col(0, 0, 0, 0xff), col(0, 0, 0xff, 0), col(0, 0xff, 0, 0), col(0xff, 0, 0, 0), col(0xff, 0xff, 0xff, 0xff), col(0, 0, 0, 0), col(0x7f, 0xff, 0xff, 0xff), col(0x80, 0, 0, 0)},
+	"SecondaryColour": {col(0, 0, 0, 0xff), col(0x7f, 0xef, 0xef, 0xef), col(0xfe, 0, 0xff, 0), col(0, 0, 0xff, 0), col(0xff, 0xff, 0xff, 0xff)},
+	"OutlineColour":   {col(0, 0, 0, 1), col(0, 0, 0xff, 0xff), col(0x80, 0x11, 0x22, 0x33), col(0, 0xff, 0, 0), col(0, 0, 0, 0)},
+	"BackColour":      {col(0, 0x10, 0x20, 0x30), col(0x80, 0, 0, 8), col(0, 0, 0, 0), col(0xff, 0, 0, 0), col(0x80, 0, 0, 0)},
 	"Bold":            {boo(false), boo(true)},
 	"Italic":          {boo(false), boo(true)},
 	"Underline":       {boo(false), boo(true)},
 	"Strikeout":       {boo(false), boo(true)},
-	"ScaleX":          {flt(100), flt(87.5), flt(0.125)},
-	"ScaleY":          {flt(90), flt(112.25)},
-	"Spacing":         {flt(0.5), flt(0), flt(-1.5)},
-	"Angle":           {flt(45), flt(0), flt(359.875)},
+	"ScaleX":          {flt(100), flt(87.5), flt(0.125), flt(0), flt(1000.5), flt(1.005)},
+	"ScaleY":          {flt(90), flt(112.25), flt(0), flt(0.07), flt(100)},
+	"Spacing":         {flt(0.5), flt(0), flt(-1.5), flt(4.125), flt(-0.001), flt(10)},
+	"Angle":           {flt(45), flt(0), flt(359.875), flt(-45), flt(90.5), flt(360)},
 	"BorderStyle":     {num(1), num(3)},
-	"Outline":         {flt(2), flt(0), flt(1.5)},
-	"Shadow":          {flt(3), flt(0), flt(0.75)},
-	"Alignment":       {num(2), num(7), num(11)},
-	"MarginL":         {num(10), num(0), num(1234)},
-	"MarginR":         {num(20), num(0), num(5)},
-	"MarginV":         {num(30), num(0), num(600)},
-	"AlphaLevel":      {flt(0.25), flt(0), flt(0.1)},
-	"Encoding":        {num(204), num(0), num(1)},
+	"Outline":         {flt(2), flt(0), flt(1.5), flt(4.125), flt(10)},
+	"Shadow":          {flt(3), flt(0), flt(0.75), flt(2.675), flt(12)},
+	"Alignment":       {num(2), num(7), num(11), num(1), num(3), num(4), num(5), num(6), num(8), num(9), num(10)},
+	"MarginL":         {num(10), num(0), num(1234), num(9999), num(9), num(100), num(-5)},
+	"MarginR":         {num(20), num(0), num(5), num(9999), num(99)},
+	"MarginV":         {num(30), num(0), num(600), num(1000), num(-5)},
+	"AlphaLevel":      {flt(0.25), flt(0), flt(0.1), flt(1), flt(255), flt(0.999)},
+	"Encoding":        {num(204), num(0), num(1), num(128), num(255), num(134)},
 }
 
-// cs instants (centiseconds)
-var starts = []int64{100, 0, 1, 99, 150, 5999, 6000, 359999, 360000, 3599999, 3600000, 8639999}
+// kindValues: for the value products every colour / float column ranges over the union of the tables of its kind.
+var allColours, allFloats = unionOf("c"), unionOf("f")
 
-var blocks = []string{"", `{\pos(400,570)}`, `{\i1}`, `{\c&HFF00FF&\fnArial, Bold}`}
-var texts = []string{"x", "a b", "a,b", ",", "a: b", "7", "é", "\U0001F600", " lead", "trail ", `a\hb`, "[x]", ";s", "", "0:00:01.00", "Marked=1"}
+func unionOf(kind string) (o []ssa.Value) {
+	seen := map[string]bool{}
+	for _, a := range ssa.V4PlusAttrs {
+		for _, v := range attrValues[a] {
+			if v.Kind == kind && !seen[v.String()] {
+				seen[v.String()] = true
+				o = append(o, v)
+			}
+		}
+	}
+	for _, v := range attrValues["AlphaLevel"] {
+		if v.Kind == kind && !seen[v.String()] {
+			seen[v.String()] = true
+			o = append(o, v)
+		}
+	}
+	return
+}
+
+// style names: plain, with a blank, digits only, with the line's own separator, non-ASCII, keywords of the format, brackets, a semicolon
+var styleNames = [][]string{
+	{"Default", "A", "My Style", "123", "a:b", "\u00c9l\u00e8ve", "Format", "Style", "Dialogue", "[x]", "x;y"},
+	{"B", "Alt 2", "9", "Dialogue"},
+	{"C"}}
+
+var speakerNames = []string{"Cher", "", "autre b", "123", "a:b", "\u00c9 \u00fc", "Default", "Dialogue", "[x]", "*x", "a;b", "Dialogue: 0"}
+
+var effects = []string{"", "test", "Scroll up;100;200", "Karaoke", "Scroll up;100;200;50", "Banner;20;1;10", "Scroll down; 10; 20", "a: b", "Marked=1"}
+
+var layers = []int{0, 1, 5, 99, 100, 1000000}
+var marginsL = []int{10, 0, 1234, 9999, 9, 100}
+var marginsR = []int{20, 0, 2345, 9999}
+var marginsV = []int{30, 0, 3456, 1}
+
+// cs instants (centiseconds): second / minute / hour / 10-hour / 100-hour boundaries and the fractions .00 .01 .05 .10 .50 .99
+var starts = []int64{100, 0, 1, 99, 150, 5999, 6000, 359999, 360000, 3599999, 3600000, 8639999, 5, 10, 50, 35999999, 36000000}
+
+var blocks = []string{"", `{\pos(400,570)}`, `{\i1}`, `{\c&HFF00FF&\fnArial, Bold}`, `{\b1\i1}`, `{=0}`, `{\an8}`, `{\fnTimes New Roman}`, `{\t(0,100,\fs20)}`, `{note: x}`, `{\k50}`}
+var texts = []string{"x", "a b", "a,b", ",", "a: b", "7", "\u00e9", "\U0001F600", " lead", "trail ", `a\hb`, "[x]", ";s", "", "0:00:01.00", "Marked=1",
+	"Dialogue: 0,0:00:00.00,x", "a,b,c,,d,", "a\tb", "a\u00a0b", `\h`, "\u65e5\u672c\u8a9e", "-", "Format: Text", "a  b", "&H00FF", "100%", "<i>x</i>", ":", "Style"}
 
 type profile struct {
 	thorough     bool // <=3 styles / events / lines
@@ -164,52 +206,65 @@ func fact(n int) int {
 	return f
 }
 
+// infoStrValues: per text field "" (absent) first, then values: plain, with the line's own separator (a URL, a
+// clock time), with a comma / semicolon, non-ASCII, keywords and section names of the format.
+var infoStrValues = []struct {
+	k    string
+	opts []string
+}{
+	{"Original Script", []string{"", "asticode", "a: b"}},
+	{"Original Translation", []string{"", "tr, 2nd", "\u65e5\u672c\u8a9e"}},
+	{"Original Editing", []string{"", "ed", "Format: x"}},
+	{"Original Timing", []string{"", "ti:me", "1:02"}},
+	{"Synch Point", []string{"", "0:00:01.00", "0"}},
+	{"Script Updated By", []string{"", "version 2.8.01", "\u00c9"}},
+	{"Update Details", []string{"", "none; really", "http://x/y?a=b"}},
+	{"Collisions", []string{"", "Normal", "Reverse"}},
+	{"WrapStyle", []string{"", "0", "2", "1", "3"}},
+}
+var infoTitles = []string{"SSA test", "", "a: b, c", "http://x/y", "1:02", "\u00c9 \u65e5\u672c", "Title", "; x", "[Events]"}
+var infoPlayResX = []int{-1, 640, 0, 1, 1920, 100000}
+var infoPlayResY = []int{-1, 480, 0, 1080, 99999}
+var infoPlayDepth = []int{-1, 0, 16, 8, 32}
+var infoTimers = []float64{-1, 100, 99.5, 0, 0.125, 1000.5, 33.3333}
+var infoComments = []string{"Comment 1", "a: b", "c;d [e]", "; disabled: x", ";; banner ;;", "[x]", "!: y", "", "http://x/y", "\u65e5\u672c", "Title: x"}
+
+func scriptTypes(v4plus bool) []string {
+	if v4plus {
+		return []string{"v4.00+", "", "V4.00+", "v4.00"}
+	}
+	return []string{"v4.00", "", "V4.00", "v4.00+"}
+}
+
 func genInfo(c *explore.C, d *ssa.Doc) {
 	d.Info.Str = map[string]string{}
 	d.Info.Int = map[string]int{}
-	st := "v4.00"
-	if d.V4Plus {
-		st = "v4.00+"
-	}
-	if v := explore.Pick(c, "info.Title", "SSA test", "", "a: b, c"); v != "" {
+	if v := explore.Pick(c, "info.Title", infoTitles...); v != "" {
 		d.Info.Str["Title"] = v
 	}
-	if v := explore.Pick(c, "info.ScriptType", st, ""); v != "" {
+	if v := explore.Pick(c, "info.ScriptType", scriptTypes(d.V4Plus)...); v != "" {
 		d.Info.Str["ScriptType"] = v
 	}
-	for _, f := range []struct {
-		k    string
-		opts []string
-	}{
-		{"Original Script", []string{"", "asticode"}},
-		{"Original Translation", []string{"", "tr, 2nd"}},
-		{"Original Editing", []string{"", "ed"}},
-		{"Original Timing", []string{"", "ti:me"}},
-		{"Synch Point", []string{"", "0:00:01.00"}},
-		{"Script Updated By", []string{"", "version 2.8.01"}},
-		{"Update Details", []string{"", "none; really"}},
-		{"Collisions", []string{"", "Normal", "Reverse"}},
-		{"WrapStyle", []string{"", "0", "2"}},
-	} {
+	for _, f := range infoStrValues {
 		if v := explore.Pick(c, "info."+f.k, f.opts...); v != "" {
 			d.Info.Str[f.k] = v
 		}
 	}
-	if v := explore.Pick(c, "info.PlayResX", -1, 640, 0); v >= 0 {
+	if v := explore.Pick(c, "info.PlayResX", infoPlayResX...); v >= 0 {
 		d.Info.Int["PlayResX"] = v
 	}
-	if v := explore.Pick(c, "info.PlayResY", -1, 480); v >= 0 {
+	if v := explore.Pick(c, "info.PlayResY", infoPlayResY...); v >= 0 {
 		d.Info.Int["PlayResY"] = v
 	}
-	if v := explore.Pick(c, "info.PlayDepth", -1, 0, 16); v >= 0 {
+	if v := explore.Pick(c, "info.PlayDepth", infoPlayDepth...); v >= 0 {
 		d.Info.Int["PlayDepth"] = v
 	}
-	if v := explore.Pick(c, "info.Timer", -1.0, 100, 99.5); v >= 0 {
+	if v := explore.Pick(c, "info.Timer", infoTimers...); v >= 0 {
 		d.Info.Timer = &v
 	}
 	n := explore.Pick(c, "info.ncomments", 0, 1, 2)
 	for i := 0; i < n; i++ {
-		d.Info.Comments = append(d.Info.Comments, explore.Pick(c, "info.comment", "Comment 1", "a: b", "c;d [e]", "; disabled: x", ";; banner ;;", "[x]", "!: y"))
+		d.Info.Comments = append(d.Info.Comments, explore.Pick(c, "info.comment", infoComments...))
 	}
 }
 
@@ -235,9 +290,11 @@ func genStyles(c *explore.C, d *ssa.Doc, maxStyles int) {
 		nsOpts = []int{1, 0, 2, 3}
 	}
 	ns := explore.Pick(c, "style.n", nsOpts...)
-	names := [][]string{{"Default", "A", "My Style"}, {"B", "Alt 2"}, {"C"}}
 	for i := 0; i < ns; i++ {
-		s := ssa.Style{Name: explore.Pick(c, "style.name", names[i]...), Attrs: map[string]ssa.Value{}}
+		s := ssa.Style{Name: explore.Pick(c, "style.name", styleNames[i]...), Attrs: map[string]ssa.Value{}}
+		if i > 0 && s.Name == d.Styles[0].Name {
+			s.Name = "B" // style names are unique
+		}
 		for _, a := range d.StyleAttrs {
 			s.Attrs[a] = explore.Pick(c, "style."+a, attrValues[a]...)
 		}
@@ -278,7 +335,7 @@ func genEvents(c *explore.C, d *ssa.Doc, p profile) {
 	for i := 0; i < ne; i++ {
 		var e ssa.Event
 		e.Start = explore.Pick(c, "event.start", starts...)
-		switch c.Choose("event.end", 4) {
+		switch c.Choose("event.end", 6) {
 		case 0:
 			e.End = e.Start + 100
 		case 1:
@@ -287,10 +344,14 @@ func genEvents(c *explore.C, d *ssa.Doc, p profile) {
 			e.End = e.Start
 		case 3:
 			e.End = e.Start + 360000
+		case 4:
+			e.End = e.Start + 5
+		case 5:
+			e.End = e.Start + 99
 		}
 		if has["LM"] {
 			if d.V4Plus {
-				e.Layer = explore.Pick(c, "event.layer", 0, 1, 5)
+				e.Layer = explore.Pick(c, "event.layer", layers...)
 			} else {
 				e.Marked = c.Bool("event.marked")
 			}
@@ -308,19 +369,19 @@ func genEvents(c *explore.C, d *ssa.Doc, p profile) {
 			e.Style = explore.Pick(c, "event.style", opts...)
 		}
 		if has["Name"] {
-			e.Name = explore.Pick(c, "event.name", "Cher", "", "autre b")
+			e.Name = explore.Pick(c, "event.name", speakerNames...)
 		}
 		if has["MarginL"] {
-			e.MarginL = explore.Pick(c, "event.ml", 10, 0, 1234)
+			e.MarginL = explore.Pick(c, "event.ml", marginsL...)
 		}
 		if has["MarginR"] {
-			e.MarginR = explore.Pick(c, "event.mr", 20, 0, 2345)
+			e.MarginR = explore.Pick(c, "event.mr", marginsR...)
 		}
 		if has["MarginV"] {
-			e.MarginV = explore.Pick(c, "event.mv", 30, 0, 3456)
+			e.MarginV = explore.Pick(c, "event.mv", marginsV...)
 		}
 		if has["Effect"] {
-			e.Effect = explore.Pick(c, "event.effect", "", "test", "Scroll up;100;200")
+			e.Effect = explore.Pick(c, "event.effect", effects...)
 		}
 		nl := explore.Pick(c, "event.nlines", nlOpts...)
 		for l := 0; l < nl; l++ {
@@ -365,8 +426,9 @@ func genRender(c *explore.C, d ssa.Doc, p profile) ssa.Render {
 				r.StrikeOutCap = c.Bool("r.strikeoutcap")
 			}
 		}
-		r.Radix = c.Choose("r.radix", 5)
-		r.FloatForm = c.Choose("r.floatform", 2)
+		r.Radix = c.Choose("r.radix", 6)
+		r.FloatForm = c.Choose("r.floatform", 3)
+		r.StylePad = c.Bool("r.stylepad")
 	}
 	n := d.NEventCols()
 	r.EventOrder = pm(n, c.Choose("r.eventorder", np(n)))
@@ -374,7 +436,9 @@ func genRender(c *explore.C, d ssa.Doc, p profile) ssa.Render {
 	r.Hours2 = c.Bool("r.hours2")
 	r.MarginPad = c.Bool("r.marginpad")
 	r.Breaks = c.Choose("r.breaks", 3)
-	r.JunkInfo = c.Choose("r.junkinfo", 5)
+	r.JunkInfo = c.Choose("r.junkinfo", 6)
+	r.KVSep = c.Choose("r.kvsep", 3)
+	r.TrailBlank = c.Choose("r.trailblank", 3)
 	if len(d.Styles) > 0 {
 		r.JunkStyles = c.Choose("r.junkstyles", 4)
 	}
@@ -556,3 +620,355 @@ func genCoreInfo(c *explore.C) Case {
 	r.EOL = explore.Pick(c, "r.eol", "\n", "\r\n")
 	return Case{Doc: d, Render: r}
 }
+
+// ---------- value products ----------
+
+func baseDoc(v4plus bool) ssa.Doc {
+	var d ssa.Doc
+	d.V4Plus = v4plus
+	d.Info.Str = map[string]string{"ScriptType": "v4.00"}
+	if v4plus {
+		d.Info.Str["ScriptType"] = "v4.00+"
+	}
+	d.Info.Int = map[string]int{}
+	return d
+}
+
+func valuesOf(a string) []ssa.Value {
+	switch ssa.AttrKind[a] {
+	case "c":
+		return allColours
+	case "f":
+		return allFloats
+	}
+	return attrValues[a]
+}
+
+// genCoreStyleValues: full product - version x attribute x every value of the attribute's table (colour and
+// float columns: the union of all tables of the kind) x every encoding of that kind (6 colour radices, 3 float
+// forms, plain / padded margins) x column layout (Name,A / A,Name / Name,B,A with B a neighbour column of the same
+// kind holding its baseline) x separator after "Style:".
+func genCoreStyleValues(c *explore.C) Case {
+	d := baseDoc(!c.Bool("v4"))
+	ver := ssa.V4PlusAttrs
+	if !d.V4Plus {
+		ver = ssa.V4Attrs
+	}
+	a := ver[c.Choose("attr", len(ver))]
+	vals := valuesOf(a)
+	v := vals[c.Choose("value", len(vals))]
+	layout := c.Choose("layout", 3)
+	d.StyleAttrs = []string{a}
+	st := ssa.Style{Name: "Default", Attrs: map[string]ssa.Value{a: v}}
+	if layout == 2 {
+		// a neighbour of the same kind in front
+		for _, b := range ver {
+			if b != a && ssa.AttrKind[b] == ssa.AttrKind[a] {
+				d.StyleAttrs = []string{b, a}
+				st.Attrs[b] = attrValues[b][0]
+				break
+			}
+		}
+	}
+	d.Styles = []ssa.Style{st}
+	d.EventCols = []string{"LM", "Style"}
+	d.Events = []ssa.Event{{Start: 100, End: 200, Style: "Default", Lines: [][]ssa.Run{{{Text: "x"}}}}}
+	r := ssa.DefaultRender(d)
+	if layout == 1 {
+		r.StyleOrder = []int{1, 0}
+	}
+	switch ssa.AttrKind[a] {
+	case "c":
+		r.Radix = c.Choose("r.radix", 6)
+	case "f":
+		r.FloatForm = c.Choose("r.floatform", 3)
+	case "i":
+		if a == "MarginL" || a == "MarginR" || a == "MarginV" {
+			r.StylePad = c.Bool("r.stylepad")
+		}
+	}
+	r.KVSep = c.Choose("r.kvsep", 3)
+	return Case{Doc: d, Render: r}
+}
+
+// genCoreNames: full product - style name x font name x speaker name class x the three ways an event refers to the
+// style (exact, '*'-prefixed, not at all) x version.
+func genCoreNames(c *explore.C) Case {
+	d := baseDoc(!c.Bool("v4"))
+	d.StyleAttrs = []string{"Fontname", "Bold"}
+	name := explore.Pick(c, "style.name", styleNames[0]...)
+	d.Styles = []ssa.Style{{Name: name, Attrs: map[string]ssa.Value{"Fontname": explore.Pick(c, "style.Fontname", attrValues["Fontname"]...), "Bold": boo(false)}},
+		{Name: "Other", Attrs: map[string]ssa.Value{"Fontname": str("Courier"), "Bold": boo(true)}}}
+	d.EventCols = []string{"LM", "Style", "Name"}
+	e := ssa.Event{Start: 100, End: 250, Lines: [][]ssa.Run{{{Text: "x"}}}}
+	e.Style = explore.Pick(c, "event.style", name, "*"+name, "")
+	e.Name = explore.Pick(c, "event.name", "Cher", name, "")
+	d.Events = []ssa.Event{e}
+	return Case{Doc: d, Render: ssa.DefaultRender(d)}
+}
+
+// genCoreEventValues: one event; a sum of full products, one per column group:
+//
+//	times:   start x end offset x H: / HH: x column order (Start,End / End,Start) x version
+//	numbers: layer (v4+) / marked (v4), each margin x value x padding x column position (customary / reversed)
+//	strings: effect x speaker name x column order (customary / reversed) x separator after "Dialogue:"
+func genCoreEventValues(c *explore.C) Case {
+	d := baseDoc(!c.Bool("v4"))
+	d.StyleAttrs = []string{"Fontname"}
+	d.Styles = []ssa.Style{{Name: "Default", Attrs: map[string]ssa.Value{"Fontname": str("Arial")}}}
+	e := ssa.Event{Start: 100, End: 250, Style: "Default", Lines: [][]ssa.Run{{{Text: "a, b"}}}}
+	var r ssa.Render
+	reverse := func() {
+		n := d.NEventCols()
+		for i := range r.EventOrder {
+			r.EventOrder[i] = n - 1 - i
+		}
+	}
+	switch c.Choose("group", 3) {
+	case 0:
+		d.EventCols = []string{"LM", "Style"}
+		e.Start = explore.Pick(c, "event.start", starts...)
+		e.End = e.Start + explore.Pick(c, "event.end", int64(100), 1, 0, 360000, 5, 99)
+		r = ssa.DefaultRender(d)
+		r.Hours2 = c.Bool("r.hours2")
+		if c.Bool("r.endfirst") {
+			r.EventOrder = []int{0, 2, 1, 3}
+		}
+	case 1:
+		d.EventCols = []string{"LM", "Style", "MarginL", "MarginR", "MarginV"}
+		e.MarginL, e.MarginR, e.MarginV = 10, 20, 30
+		switch c.Choose("column", 4) {
+		case 0:
+			if d.V4Plus {
+				e.Layer = explore.Pick(c, "event.layer", layers...)
+			} else {
+				e.Marked = c.Bool("event.marked")
+			}
+		case 1:
+			e.MarginL = explore.Pick(c, "event.ml", append(append([]int{}, marginsL...), 2345, 3456, 1)...)
+		case 2:
+			e.MarginR = explore.Pick(c, "event.mr", append(append([]int{}, marginsR...), 1234, 3456, 9, 100, 1)...)
+		case 3:
+			e.MarginV = explore.Pick(c, "event.mv", append(append([]int{}, marginsV...), 1234, 2345, 9999, 9, 100)...)
+		}
+		r = ssa.DefaultRender(d)
+		r.MarginPad = c.Bool("r.marginpad")
+		if c.Bool("r.reversed") {
+			reverse()
+		}
+	case 2:
+		d.EventCols = []string{"LM", "Style", "Name", "Effect"}
+		e.Effect = explore.Pick(c, "event.effect", effects...)
+		e.Name = explore.Pick(c, "event.name", speakerNames...)
+		r = ssa.DefaultRender(d)
+		if c.Bool("r.reversed") {
+			reverse()
+		}
+		r.KVSep = c.Choose("r.kvsep", 3)
+	}
+	d.Events = []ssa.Event{e}
+	return Case{Doc: d, Render: r}
+}
+
+// genCoreTextValues: a sum of two full products over the text atoms:
+//
+//	placement: text atom x override block x where the run sits (alone / first of two runs / second of two runs /
+//	           on the first / on the second of two lines) x break kind
+//	pairs:     text atom x text atom as the two lines of one event x break kind, around an empty line (\N\N), and as
+//	           two runs separated by a block
+func genCoreTextValues(c *explore.C) Case {
+	d := coreDoc(c)
+	e := ssa.Event{Start: 100, End: 250, Name: "Cher", Style: "Default"}
+	r := ssa.DefaultRender(d)
+	if c.Choose("group", 2) == 0 {
+		run := ssa.Run{Block: explore.Pick(c, "event.block", blocks...), Text: explore.Pick(c, "event.text", texts...)}
+		other := ssa.Run{Block: `{\i1}`, Text: "y"}
+		switch c.Choose("place", 5) {
+		case 0:
+			e.Lines = [][]ssa.Run{{run}}
+		case 1:
+			e.Lines = [][]ssa.Run{{run, other}}
+		case 2:
+			e.Lines = [][]ssa.Run{{{Text: "y"}, run}}
+			if run.Block == "" {
+				e.Lines = [][]ssa.Run{{other, run}}
+			}
+		case 3:
+			e.Lines = [][]ssa.Run{{run}, {other}}
+			r.Breaks = c.Choose("r.breaks", 2)
+		case 4:
+			e.Lines = [][]ssa.Run{{other}, {run}}
+			r.Breaks = c.Choose("r.breaks", 2)
+		}
+	} else {
+		t1, t2 := explore.Pick(c, "event.text", texts...), explore.Pick(c, "event.text", texts...)
+		switch c.Choose("shape", 4) {
+		case 3:
+			e.Lines = [][]ssa.Run{{{Text: t1}}, {{Text: ""}}, {{Text: t2}}}
+		case 0:
+			e.Lines = [][]ssa.Run{{{Text: t1}}, {{Text: t2}}}
+		case 1:
+			e.Lines = [][]ssa.Run{{{Text: t1}}, {{Text: t2}}}
+			r.Breaks = 1
+		case 2:
+			e.Lines = [][]ssa.Run{{{Text: t1}, {Block: `{\b1}`, Text: t2}}}
+		}
+	}
+	d.Events = []ssa.Event{e}
+	return Case{Doc: d, Render: r}
+}
+
+// genCoreInfoValues: a sum of full products, one per script-info field: field x every value of its table x
+// separator after the key x trailing blanks x company (alone / among other fields / among them in reverse order) x
+// EOL kind; and comment atom x comment atom x "; c" vs ";c" x position.
+func genCoreInfoValues(c *explore.C) Case {
+	var d ssa.Doc
+	d.Info.Str = map[string]string{}
+	d.Info.Int = map[string]int{}
+	r := ssa.Render{}
+	nf := 2 + len(infoStrValues) + 4
+	f := c.Choose("field", nf+1)
+	switch {
+	case f == 0:
+		if v := explore.Pick(c, "info.Title", infoTitles...); v != "" {
+			d.Info.Str["Title"] = v
+		}
+	case f == 1:
+		d.V4Plus = c.Bool("v4plus")
+		if v := explore.Pick(c, "info.ScriptType", scriptTypes(d.V4Plus)...); v != "" {
+			d.Info.Str["ScriptType"] = v
+		}
+	case f < 2+len(infoStrValues):
+		x := infoStrValues[f-2]
+		d.Info.Str[x.k] = explore.Pick(c, "info."+x.k, x.opts[1:]...)
+	case f == nf-4:
+		d.Info.Int["PlayResX"] = explore.Pick(c, "info.PlayResX", infoPlayResX[1:]...)
+	case f == nf-3:
+		d.Info.Int["PlayResY"] = explore.Pick(c, "info.PlayResY", infoPlayResY[1:]...)
+	case f == nf-2:
+		d.Info.Int["PlayDepth"] = explore.Pick(c, "info.PlayDepth", infoPlayDepth[1:]...)
+	case f == nf-1:
+		v := explore.Pick(c, "info.Timer", infoTimers[1:]...)
+		d.Info.Timer = &v
+	default:
+		d.Info.Comments = []string{explore.Pick(c, "info.comment", infoComments...)}
+		if k := c.Choose("info.comment2", 1+len(infoComments)); k > 0 {
+			d.Info.Comments = append(d.Info.Comments, infoComments[k-1])
+		}
+	}
+	company := c.Choose("company", 3)
+	if company > 0 {
+		for k, v := range map[string]string{"Title": "SSA test", "Original Script": "asticode", "Update Details": "none"} {
+			if _, ok := d.Info.Str[k]; !ok && !(f == 0 && k == "Title") {
+				d.Info.Str[k] = v
+			}
+		}
+		if _, ok := d.Info.Int["PlayResY"]; !ok {
+			d.Info.Int["PlayResY"] = 600
+		}
+	}
+	d.EventCols = []string{"LM"}
+	d.Events = []ssa.Event{{Start: 100, End: 200, Lines: [][]ssa.Run{{{Text: "x"}}}}}
+	r = ssa.DefaultRender(d)
+	r.InfoReverse = company == 2
+	if d.Info.Timer != nil {
+		r.TimerForm = c.Choose("r.timer", 3)
+	}
+	if len(d.Info.Comments) > 0 {
+		r.CommentTight = c.Bool("r.commenttight")
+		r.CommentsLast = c.Bool("r.commentslast")
+	}
+	r.KVSep = c.Choose("r.kvsep", 3)
+	r.TrailBlank = c.Choose("r.trailblank", 3)
+	r.EOL = explore.Pick(c, "r.eol", "\n", "\r\n")
+	return Case{Doc: d, Render: r}
+}
+
+// genCoreSyntax: full product of the line-level freedoms on one fixed document that uses every section: separator
+// after the key x trailing blanks x EOL kind x section-name case x Format separators x BOM x unterminated last line x
+// blank lines between sections x an empty-valued field.
+func genCoreSyntax(c *explore.C) Case {
+	d := baseDoc(!c.Bool("v4"))
+	d.Info.Str["Title"] = "a: b, c"
+	d.Info.Int["PlayResX"] = 640
+	t := 99.5
+	d.Info.Timer = &t
+	d.Info.Comments = []string{"Comment 1", ""}
+	d.StyleAttrs = []string{"Fontname", "Fontsize", "PrimaryColour", "Bold", "MarginL"}
+	d.Styles = []ssa.Style{{Name: "Default", Attrs: map[string]ssa.Value{"Fontname": str("Times New Roman"), "Fontsize": flt(4.5), "PrimaryColour": col(0xff, 1, 2, 3), "Bold": boo(true), "MarginL": num(10)}}}
+	d.EventCols = append([]string{}, ssa.AllEventCols...)
+	d.Events = []ssa.Event{{Start: 359999, End: 360000, Style: "*Default", Name: "a:b", MarginL: 10, MarginR: 20, MarginV: 30, Effect: "Banner;20;1;10",
+		Lines: [][]ssa.Run{{{Text: "a, b"}, {Block: `{\i1}`, Text: ": c"}}, {{Text: ""}}}}}
+	if d.V4Plus {
+		d.Events[0].Layer = 5
+	} else {
+		d.Events[0].Marked = true
+	}
+	r := ssa.DefaultRender(d)
+	r.KVSep = c.Choose("r.kvsep", 3)
+	r.TrailBlank = c.Choose("r.trailblank", 3)
+	r.EOL = explore.Pick(c, "r.eol", "\n", "\r\n", "\r")
+	r.SecCase = c.Choose("r.seccase", 3)
+	r.FormatSep = explore.Pick(c, "r.formatsep", ", ", ",", " , ")
+	r.BOM = c.Bool("r.bom")
+	r.NoFinalEOL = c.Bool("r.nofinaleol")
+	r.Blank = explore.Pick(c, "r.blank", 1, 0, 2)
+	if c.Bool("r.emptyfield") {
+		r.JunkInfo = 5
+	}
+	return Case{Doc: d, Render: r}
+}
+
+// genCoreMany: counts beyond the small structure bounds - many events, styles, comments, lines and runs (around the
+// 16 / 100 / 256 boundaries), every element distinct so that a lost, repeated or displaced one shows.
+func genCoreMany(c *explore.C) Case {
+	d := baseDoc(!c.Bool("v4"))
+	ne, ns, nc, nl, nr := 1, 1, 0, 1, 1
+	switch c.Choose("kind", 5) {
+	case 0:
+		ne = explore.Pick(c, "n", 3, 16, 17, 100, 255, 256, 257, 300)
+	case 1:
+		ns = explore.Pick(c, "n", 3, 16, 17, 100, 255, 256, 257)
+		ne = ns
+	case 2:
+		nc = explore.Pick(c, "n", 3, 10, 100, 257)
+	case 3:
+		nl = explore.Pick(c, "n", 4, 10, 50)
+	case 4:
+		nr = explore.Pick(c, "n", 4, 10, 50)
+	}
+	for i := 0; i < nc; i++ {
+		d.Info.Comments = append(d.Info.Comments, "comment "+itoa(i))
+	}
+	d.StyleAttrs = []string{"Fontname", "Fontsize", "PrimaryColour", "MarginL"}
+	for i := 0; i < ns; i++ {
+		d.Styles = append(d.Styles, ssa.Style{Name: "S" + itoa(i), Attrs: map[string]ssa.Value{"Fontname": str("F" + itoa(i)),
+			"Fontsize": flt(float64(i) + 0.5), "PrimaryColour": col(uint8(i>>8), uint8(i), uint8(255-i), uint8(i*7)), "MarginL": num(i)}})
+	}
+	d.EventCols = []string{"LM", "Style", "Name", "MarginV"}
+	for i := 0; i < ne; i++ {
+		e := ssa.Event{Start: int64(i) * 150, End: int64(i)*150 + 100, Style: "S" + itoa(i%ns), Name: "n" + itoa(i), MarginV: i}
+		if d.V4Plus {
+			e.Layer = i
+		} else {
+			e.Marked = i%3 == 1
+		}
+		for l := 0; l < nl; l++ {
+			var line []ssa.Run
+			for r := 0; r < nr; r++ {
+				run := ssa.Run{Text: "t" + itoa(i) + "." + itoa(l) + "." + itoa(r)}
+				if r > 0 {
+					run.Block = `{\k` + itoa(r) + `}`
+				}
+				line = append(line, run)
+			}
+			e.Lines = append(e.Lines, line)
+		}
+		d.Events = append(d.Events, e)
+	}
+	r := ssa.DefaultRender(d)
+	r.EOL = explore.Pick(c, "r.eol", "\n", "\r\n")
+	return Case{Doc: d, Render: r}
+}
+
+func itoa(i int) string { return strconv.Itoa(i) }
